@@ -4,7 +4,7 @@ From Coq Require Import String.
 From Coq Require Import List Ascii ZArith Bool Lia Sorting.Sorted Sorting.Permutation.
 From CGV Require Hydro.Squash Compose.GraphAdj Compose.RelabelEdges.
 From CGV Require Import Base.PyBase Base.PyVal Base.NxGraph Resolve.Bonding Resolve.GraphOps Resolve.Pipeline
-     Resolve.MapDefs Resolve.Witness Resolve.SortProofs Resolve.VirtualProofs Resolve.SortGraphProofs Resolve.DriversInst Resolve.NameProofs Resolve.NameStep Resolve.NameClosed Resolve.PipelineFull.
+     Resolve.MapDefs Resolve.Witness Resolve.SortProofs Resolve.VirtualProofs Resolve.SortGraphProofs Resolve.DriversInst Resolve.NameProofs Resolve.NameStep Resolve.NameClosed Resolve.SingleFragid Resolve.CopyProofs Resolve.FragidProofs Resolve.PipelineFull.
 From CGV Require Import Hydro.SquashDefs.
 From CGV Require Hydro.SquashProofs.
 Import ListNotations.
@@ -196,6 +196,25 @@ Example C12_step_names_closed_form_nonvacuous :
                | Err _ => false end
   | None => false end = true.
 Proof. vm_compute. reflexivity. Qed.
+(** steps that squash nothing (fo_m3 = fo_m2; squash_atoms is the only stage that concatenates fragid lists): every stage keeps
+    "each fragid is a one-element list" (Resolve/SingleFragid.v), so no atom of the sorted graph reads as shared and the closed
+    form needs no hypothesis about intermediate graphs *)
+Theorem C12_step_not_shared : forall legacy aa fd prev car fo, wf_dict fd -> wf_attrs fd ->
+  resolve_step_full legacy aa fd prev car = Ok fo -> fo_m3 fo = fo_m2 fo ->
+  forall n a, node_attrs (fo_m6 fo) n = Ok a -> fragid_shared a <> Ok true.
+Proof. exact step_not_shared. Qed.
+Theorem C12_step_name_at_nosquash : forall legacy fd prev car fo, wf_dict fd -> wf_attrs fd ->
+  resolve_step_full legacy true fd prev car = Ok fo -> fo_m3 fo = fo_m2 fo -> NoDup (node_keys prev) ->
+  forall k g i n, In (k, g) (fo_fgs fo) -> nth_error (node_keys g) i = Some n ->
+  exists e, elem (fo_m6 fo) n e /\ name_in (fo_mol fo) n = Some (VStr (atom_label e (Z.of_nat i))).
+Proof. exact step_name_at_nosquash. Qed.
+(** non-vacuity: the witness step squashes nothing *)
+Example C12_step_name_at_nosquash_nonvacuous :
+  match m3_AA with
+  | Some m3 => match resolve_step_full true true fd_CC base_AA (Some m3) with
+               | Ok fo => graph_eqb (fo_m3 fo) (fo_m2 fo) | Err _ => false end
+  | None => false end = true.
+Proof. vm_compute. reflexivity. Qed.
 (** element ++ str(index) determines element and index when the element has no digit *)
 Theorem C12_label_injective : forall e e' i j, digit_free e -> digit_free e' -> 0 <= i -> 0 <= j ->
   atom_label e i = atom_label e' j -> e = e' /\ i = j.
@@ -303,6 +322,8 @@ Print Assumptions C12_step_names_unique_any.
 Print Assumptions C12_names_closed_form.
 Print Assumptions C12_step_names_closed_form.
 Print Assumptions C12_step_name_at.
+Print Assumptions C12_step_not_shared.
+Print Assumptions C12_step_name_at_nosquash.
 Print Assumptions C12_sort_keys.
 Print Assumptions C12_sort_sorted.
 Print Assumptions C12_block_contiguous.
